@@ -399,7 +399,44 @@ def r35(ctx, rel_funcs, methods):
     cfg = fl.cfg
     removes = [c for c in walk_local(f) if isinstance(c, ast.Call) and isinstance(c.func, ast.Attribute) and c.func.attr in ("pop", "remove") and path_of(c.func.value) == "self.locked"]
     commits = [c for c in walk_local(f) if isinstance(c, ast.Call) and is_self_attr(c.func, "write_toml")]
-    if not removes:
+    # the record rebuilt without the finished job:  self.locked = [lock for lock in self.locked if <keep>]
+    rebuilds = [st for st in walk_local(f) if isinstance(st, ast.Assign) and any(path_of(t) == "self.locked" for t in st.targets) and isinstance(st.value, ast.ListComp)
+                and len(st.value.generators) == 1 and path_of(st.value.generators[0].iter) == "self.locked" and isinstance(st.value.generators[0].target, ast.Name)]
+    for st in rebuilds:
+        g0 = st.value.generators[0]
+        var = g0.target.id
+        verdict = None
+        if ast.unparse(st.value.elt) != var or len(g0.ifs) != 1:
+            verdict = "the rebuilt in-flight record is not a selection of the old records"
+        else:
+            cond = g0.ifs[0]
+            neg = False
+            while isinstance(cond, ast.UnaryOp) and isinstance(cond.op, ast.Not):
+                cond, neg = cond.operand, not neg
+
+            def numbers_of(e):
+                return isinstance(e, ast.Subscript) and isinstance(e.value, ast.Name) and e.value.id == var and isinstance(e.slice, ast.Constant) and e.slice.value == 1
+
+            if isinstance(cond, ast.Compare) and len(cond.ops) == 1 and "pn_old" in ast.unparse(cond.left) and numbers_of(cond.comparators[0]) and (isinstance(cond.ops[0], ast.NotIn) and not neg or isinstance(cond.ops[0], ast.In) and neg):
+                verdict = ""
+            elif isinstance(cond, ast.Call) and last_name(cond) == "any" and neg and cond.args and isinstance(cond.args[0], (ast.GeneratorExp, ast.ListComp)):
+                ge = cond.args[0]
+                inner = ge.generators[0]
+                el = ge.elt
+                if numbers_of(inner.iter) and isinstance(inner.target, ast.Name) and isinstance(el, ast.Compare) and len(el.ops) == 1 and "pn_old" in ast.unparse(el.left):
+                    if isinstance(el.ops[0], ast.In) and isinstance(el.comparators[0], ast.Name) and el.comparators[0].id == inner.target.id:
+                        verdict = f"the finished job is looked up by `{short(el, 40)}` for every number `{inner.target.id}` of a record - a substring test on the string form of the path numbers: a job that finishes with old path 7 also deletes the records of running jobs that hold path 17 or 71; their ensembles stay busy but the in-flight record (and restart.toml) no longer lists them, so a restart neither re-issues nor re-locks them"
+                    elif isinstance(el.ops[0], ast.Eq) and inner.target.id in ast.unparse(el.comparators[0]):
+                        verdict = ""
+            if verdict is None:
+                verdict = "the records kept are not selected by the finished job's old path number"
+        if verdict == "" and all(cfg.reaches(cfg.node_of(st), cfg.node_of(c)) for c in commits) and not any(cfg.reaches(cfg.node_of(c), cfg.node_of(st)) for c in commits):
+            ctx.ok(rid, st, "the in-flight record is rebuilt without the finished job (selected by its old path number, exact membership) before write_toml")
+        elif verdict == "":
+            ctx.bad(rid, st, "the in-flight record is rebuilt without the finished job only after the commit")
+        else:
+            ctx.bad(rid, st, f"treat_output: {verdict}", construct=f"treat_output: {short(st.value.generators[0].ifs[0] if st.value.generators[0].ifs else st, 70)}")
+    if not removes and not rebuilds:
         ctx.bad(rid, f, "treat_output never removes the finished job from self.locked: a finished job would be re-issued after a restart")
     for r in removes:
         g = [ast.unparse(e) for e, t, _ in cfg.guards(cfg.node_of(r)) if t]
@@ -967,6 +1004,8 @@ def run(ctx):
 
 
 VARIANTS = [
+    B("c03-finished-job-found-by-substring", REPEX, "            for idx, lock in enumerate(self.locked):\n                if str(pn_old) in lock[1]:\n                    self.locked.pop(idx)\n", "            self.locked = [\n                lock\n                for lock in self.locked\n                if not any(str(pn_old) in pnum for pnum in lock[1])\n            ]\n", "R-3.5", control=True, why="seeded C03_o"),
+    K("c03-keep-record-rebuilt-by-exact-membership", REPEX, "            for idx, lock in enumerate(self.locked):\n                if str(pn_old) in lock[1]:\n                    self.locked.pop(idx)\n", "            self.locked = [lock for lock in self.locked if str(pn_old) not in lock[1]]\n", why="same selection, exact list membership"),
     B("c03-counter-stored-back-after-the-commit", REPEX, '        self.config["current"]["traj_num"] = traj_num\n        self.cworker = md_items["pin"]', '        self.cworker = md_items["pin"]', "R-3.18", control=True, also=[(REPEX, "        self.write_toml()\n\n        return md_items", '        self.write_toml()\n        self.config["current"]["traj_num"] = traj_num\n\n        return md_items')], why="seeded C03_n"),
     B("c03-engines-released-per-requested-type-only", FACTORY, "    for eng_key in engine_occ.keys():\n        for i, occupied_by in enumerate(engine_occ[eng_key]):\n            if pin == occupied_by:", "    for eng_key in eng_names:\n        for i, occupied_by in enumerate(engine_occ[eng_key]):\n            if pin == occupied_by:", "R-3.6", why="seeded C05_m / C03_m"),
     B("c03-record-in-pick-order", REPEX, "        pat_nums = [str(i.path_number) for i in inp_trajs]\n", "        pat_nums = [str(traj.path_number)]\n        if len(inp_trajs) > 1:\n            pat_nums.append(str(other_traj.path_number))\n", "R-3.17", control=True, why="seeded C03_l (= C08_j)"),
